@@ -17,44 +17,53 @@ for the commands it owns and `none` otherwise.
 namespace Driver
 open Hms Hms.Members HmsGen
 
-partial def decodeVal (s : Sexp) : Option MVal :=
-  match s with
-  | .atom "null" => some .null
-  | .atom "none" => some .none
-  | .atom _ => none
-  | .list (.atom "int" :: [x]) => (x.asInt?).map fun i => .int (BitVec.ofInt 64 i)
-  | .list (.atom "float" :: [x]) => (x.asNat?).map .float
-  | .list (.atom "bool" :: [x]) => (x.asBool?).map .bool
-  | .list (.atom "str" :: [x]) => (x.asStr?).map fun t => .str t.toList
-  | .list (.atom "range" :: [a, b, c]) => do
-    let a ← a.asInt?; let b ← b.asInt?; let c ← c.asBool?
-    pure (.range (BitVec.ofInt 64 a) (BitVec.ofInt 64 b) c)
-  | .list (.atom "list" :: xs) => (xs.mapM decodeVal).map .list
-  | .list (.atom "some" :: [x]) => (decodeVal x).map .some
-  | .list (.atom "anyobj" :: fs) => do
-    let kv ← fs.mapM decodeField
-    pure (.anyobj (kv.map (·.1)) (kv.map (·.2)))
-  | .list (.atom "obj" :: fs) => do
-    let kv ← fs.mapM decodeField
-    pure (.obj (kv.map (·.1)) (kv.map (·.2)))
-  | .list [.atom "fn"] => some .fn
-  | .list (.atom "other" :: [x]) => (x.asStr?).map .other
+mutual
+def decodeVal : Sexp → Option MVal
+  | .atom a => if a == "null" then some .null else if a == "none" then some .none else none
+  | .list [] => none
+  | .list (.list _ :: _) => none
+  | .list (.atom tag :: args) =>
+    match tag, args with
+    | "int", [x] => (x.asInt?).map fun i => .int (BitVec.ofInt 64 i)
+    | "float", [x] => (x.asNat?).map .float
+    | "bool", [x] => (x.asBool?).map .bool
+    | "str", [x] => (x.asStr?).map fun t => .str t.toList
+    | "range", [a, b, c] => do
+      let a ← a.asInt?; let b ← b.asInt?; let c ← c.asBool?
+      pure (.range (BitVec.ofInt 64 a) (BitVec.ofInt 64 b) c)
+    | "list", xs => (decodeVals xs).map .list
+    | "some", [x] => (decodeVal x).map .some
+    | "anyobj", fs => (decodeFields fs).map fun kv => .anyobj (kv.map (·.1)) (kv.map (·.2))
+    | "obj", fs => (decodeFields fs).map fun kv => .obj (kv.map (·.1)) (kv.map (·.2))
+    | "fn", [] => some .fn
+    | "other", [x] => (x.asStr?).map .other
+    | _, _ => none
+def decodeVals : List Sexp → Option (List MVal)
+  | [] => some []
+  | x :: xs => do
+    let v ← decodeVal x
+    let vs ← decodeVals xs
+    pure (v :: vs)
+def decodeFields : List Sexp → Option (List (String × MVal))
+  | [] => some []
+  | .list [k, v] :: rest => do
+    let k ← k.asStr?
+    let v ← decodeVal v
+    let r ← decodeFields rest
+    pure ((k, v) :: r)
   | _ => none
-where
-  decodeField (s : Sexp) : Option (String × MVal) :=
-    match s with
-    | .list [k, v] => do
-      let k ← k.asStr?
-      let v ← decodeVal v
-      pure (k, v)
-    | _ => none
+end
 
-/-- Pair keys with values and sort by key (the Go side dumps maps sorted). -/
-def sortedFields (ks : List String) (vs : List MVal) : List (String × MVal) :=
+/-- Pair keys with (encoded) values and sort by key (the Go side dumps maps sorted). -/
+def sortedFields (ks : List String) (vs : List String) : List (String × String) :=
   let kv := ks.zip vs
   (sortStrings (kv.map (·.1))).filterMap fun k => (kv.find? (·.1 == k)).map fun p => (k, p.2)
 
-partial def encodeVal : MVal → String
+def encodeFields (fs : List (String × String)) : List String :=
+  fs.map fun (k, v) => s!"({Sexp.hexOfString k} {v})"
+
+mutual
+def encodeVal : MVal → String
   | .null => "null"
   | .none => "none"
   | .int v => s!"(int {v.toInt})"
@@ -62,12 +71,16 @@ partial def encodeVal : MVal → String
   | .bool b => s!"(bool {b})"
   | .str cs => s!"(str {Sexp.hexOfString (String.ofList cs)})"
   | .range a b i => s!"(range {a.toInt} {b.toInt} {i})"
-  | .list xs => "(" ++ " ".intercalate ("list" :: xs.map encodeVal) ++ ")"
+  | .list xs => "(" ++ " ".intercalate ("list" :: encodeVals xs) ++ ")"
   | .some v => s!"(some {encodeVal v})"
-  | .anyobj ks vs => "(" ++ " ".intercalate ("anyobj" :: (sortedFields ks vs).map fun (k, v) => s!"({Sexp.hexOfString k} {encodeVal v})") ++ ")"
-  | .obj ks vs => "(" ++ " ".intercalate ("obj" :: (sortedFields ks vs).map fun (k, v) => s!"({Sexp.hexOfString k} {encodeVal v})") ++ ")"
+  | .anyobj ks vs => "(" ++ " ".intercalate ("anyobj" :: encodeFields (sortedFields ks (encodeVals vs))) ++ ")"
+  | .obj ks vs => "(" ++ " ".intercalate ("obj" :: encodeFields (sortedFields ks (encodeVals vs))) ++ ")"
   | .fn => "(fn)"
   | .other k => s!"(other {Sexp.hexOfString k})"
+def encodeVals : List MVal → List String
+  | [] => []
+  | v :: vs => encodeVal v :: encodeVals vs
+end
 
 def encodeRes : Res → String
   | .ok ret recv => s!"OK ret={encodeVal ret} recv={encodeVal recv}"
@@ -81,7 +94,7 @@ def runOp (vm : Bool) (op : Sexp) : Option Res :=
   | .list (.atom "call" :: recv :: name :: args) => do
     let r ← decodeVal recv
     let n ← name.asStr?
-    let a ← args.mapM decodeVal
+    let a ← decodeVals args
     pure (callMember vm r n a)
   | .list [.atom "field", recv, name] => do
     let r ← decodeVal recv
@@ -103,7 +116,7 @@ def runSeq (vm : Bool) (recv : MVal) (steps : List Sexp) : Option (Res × Nat) :
     match st with
     | .list (name :: args) =>
       let nm ← name.asStr?
-      let a ← args.mapM decodeVal
+      let a ← decodeVals args
       let r := callMember vm cur nm a
       match r with
       | .ok _ recv' => cur := recv'; last := r
@@ -130,7 +143,7 @@ def cmdModel (payload : String) : String :=
     | none => "BAD-INPUT"
   | _ => "BAD-INPUT"
 
-partial def encodeTy : GTy → String
+def encodeTy : GTy → String
   | .unknown => "unknown" | .never => "never" | .any => "any" | .null => "null" | .int => "int"
   | .float => "float" | .bool => "bool" | .str => "str" | .range => "range" | .anyobj => "anyobj"
   | .obj => "obj" | .fn => "fn"
